@@ -262,13 +262,18 @@ ReuseDocs ==
                     Op("B", "query", <<VarDef("sv", S)>>, <<FS("", "a", <<FA("", "tag", <<Arg("s", Var("sv"))>>)>>),
                                                              FS("", "items", <<FA("", "tag", <<Arg("s", Var("sv"))>>), F("", "n")>>)>>)>>,
          frags |-> <<>>] }
+  \* variable defaults that are input objects / lists of them: completing them with input field defaults must not touch the parsed request
+  \cup { [ops |-> <<Op("Q", "query", <<VarDefD("iv", Named("In"), ObjV([a |-> StrV("x")])), VarDef("sv", S)>>,
+                       <<FA("", "obj", <<Arg("in", Var("iv"))>>), FA("o2", "obj", <<Arg("in", ObjV([a |-> Var("sv")]))>>)>>)>>, frags |-> <<>>] }
   \cup { Doc1(<<FS("", "a", <<FA("", "tag", <<BogusArg>>), F("", "n")>>)>>),
          Doc1(<<FS("", "items", <<FA("", "tag", <<Arg("s", StrV("v")), BogusArg>>)>>)>>),
          Doc1(<<FS("", "a", <<F("", "nope"), F("", "name")>>), F("", "need")>>) }
 ReuseCalls(doc) ==
   { [op |-> o, vars |-> g] :
       o \in {doc.ops[i].name : i \in DOMAIN doc.ops} \cup (IF Len(doc.ops) = 1 THEN {""} ELSE {}),
-      g \in { NoVars, [sv |-> StrV("one")], [sv |-> StrV("two"), bv |-> BoolV(TRUE)] } }
+      g \in { NoVars, [sv |-> StrV("one")], [sv |-> StrV("two"), bv |-> BoolV(TRUE)] }
+              \cup (IF \E i \in DOMAIN doc.ops : \E j \in DOMAIN doc.ops[i].vars : doc.ops[i].vars[j].n = "iv"
+                    THEN {[iv |-> ObjV([a |-> StrV("given"), n |-> IntV(2)])]} ELSE {}) }
 
 \* ---- abstract types: interface and union typed fields, fragments with object / interface / union
 \* ---- conditions under every container kind (C08; realised by the reflection strategy only)
